@@ -142,6 +142,21 @@ def gen_tree(r, bs=4096, nfiles=8, ndirs=3, hostile=False, specials=True, xattrs
         e = Entry(p, FILE, content=gen_content(r, bs, pool, big), **common())
         ents.append(e)
         files.append(e)
+    if files and r.random() < 0.5:
+        # periodic contents next to each other in packing order: a run of identical blocks right after data that ends in the
+        # same block (the block writer's duplicate search may then match a range overlapping the file's own fresh blocks)
+        blk = _rand_bytes(r, bs) if r.random() < 0.5 else _compressible(r, bs)
+        d = r.choice(dirs)
+        stem = gen_name(r, False)
+        k1, k2 = r.choice([(1, 2), (1, 3), (2, 5), (2, 3)])
+        tailb = r.choice([b"", b"", _rand_bytes(r, 100)])
+        for suffix, k in ((b".0", k1), (b".1", k2), (b".2", r.choice([1, k1]))):
+            p = (d + b"/" if d else b"") + stem + suffix
+            if p not in used:
+                used.add(p)
+                e = Entry(p, FILE, content=blk * k + (tailb if suffix == b".2" else b""), **common())
+                ents.append(e)
+                files.append(e)
     if bigdir:
         parent = fresh(b"")
         ents.append(Entry(parent, DIR, **common()))
